@@ -149,7 +149,11 @@ Section ProofModel.
             | None => Err
             | Some (ni, li) =>
               match right_sibling ni li size with
-              | None => cpn f size height (ins_idx parent rest) result ((parent, cur) :: cache) sibs
+              | None =>
+                (* no sibling: a hash claimed for the parent index must be the hash carried up (as repaired) *)
+                let clash := match lookup result parent with Some e => negb (heqb e cur) | None => false end in
+                if clash then Err
+                else cpn f size height (ins_idx parent rest) result ((parent, cur) :: cache) sibs
               | Some (sn, sl) =>
                 match loc_index sn sl height with
                 | None => Err
